@@ -546,8 +546,13 @@ class Mitochondria:
                 if func_name in self.SAFE_FUNCTIONS:
                     func = self.SAFE_FUNCTIONS[func_name]
                     args = [self._compute_node(arg) for arg in node.args]
+                    kwargs = {}
+                    for kw in node.keywords:
+                        if kw.arg is None:
+                            raise ValueError("Keyword unpacking (**) not supported")
+                        kwargs[kw.arg] = self._compute_node(kw.value)
                     if callable(func):
-                        return func(*args)
+                        return func(*args, **kwargs)
                     return func  # Constants like pi, e
                 raise ValueError(f"Unknown function: {func_name}")
             raise ValueError("Complex function calls not supported")
